@@ -21,7 +21,7 @@ def decUrl? (tok : String) : Option UrlC := do
   | _ => none
 
 /-- reply: two tokens `status:hasLoc:kind` and a url token (`~` unless kind = 2).
-kind 0 = invalid target, 1 = other scheme, 2 = url, 3 = connection closed (NetworkError), 4 = garbage (ProtocolError) -/
+kind 5/6 = no connection (refused / DNS failure); kind 0 = invalid target, 1 = other scheme, 2 = url, 3 = connection closed (NetworkError), 4 = garbage (ProtocolError) -/
 def decReplies? : List String → Option (List Reply)
   | [] => some []
   | [_] => none
@@ -31,7 +31,9 @@ def decReplies? : List String → Option (List Reply)
     | [st, hl, kind] =>
       let st ← st.toNat?
       let hasLoc := hl == "1"
-      if kind == "3" then some (.fail .NetworkError :: rest)
+      if kind == "5" then some (.noConnect .ConnectionRefused :: rest)
+      else if kind == "6" then some (.noConnect .DNSNotFound :: rest)
+      else if kind == "3" then some (.fail .NetworkError :: rest)
       else if kind == "4" then some (.fail .ProtocolError :: rest)
       else if kind == "2" then do
         let uc ← decUrl? u
@@ -63,7 +65,8 @@ def decSession? : List String → Option SessArgs
     let answers ← decLists? jarAns
     let script ← decReplies? replies
     let cfg : Cfg := {
-      maxRedirects := maxRed, proxy := proxy == "T", factoryFields := ff, useJar := useJar == "T",
+      maxRedirects := maxRed, proxy := proxy.startsWith "T", factoryFields := ff, useJar := useJar == "T",
+      retryConnRefused := proxy.contains 'c', retryDnsError := proxy.contains 'd',
       auth := basicAuth,
       jar := fun i _ => match answers[i]? with
         | some [] => none
